@@ -4,6 +4,7 @@ import (
 	"fmt"
 	"go/token"
 	"go/types"
+	"os"
 	"strings"
 
 	"golang.org/x/tools/go/ssa"
@@ -111,6 +112,7 @@ func (v *Verifier) callCommon(s *State, c *ssa.CallCommon, fv *Value, args []*Va
 						recvT := v.lookupNamedType(key[:k])
 						if recvT != nil {
 							self := scalar(types.NewPointer(recvT), fv.OrigObj)
+							v.curFnValue = fv
 							return v.applyFieldCallback(s, fc, sig, self, args, pos, resultType(c), key)
 						}
 					}
@@ -121,6 +123,7 @@ func (v *Verifier) callCommon(s *State, c *ssa.CallCommon, fv *Value, args []*Va
 					if fc := v.contracts.get(rf.key); fc != nil {
 						v.byContract[rf.key] = true
 						if sig, ok := under(fv.T).(*types.Signature); ok {
+							v.curFnValue = fv
 							if rf.self != nil {
 								return v.applyFieldCallback(s, fc, sig, rf.self, args, pos, resultType(c), rf.key)
 							}
@@ -133,6 +136,15 @@ func (v *Verifier) callCommon(s *State, c *ssa.CallCommon, fv *Value, args []*Va
 				return v.applyCallback(s, cb, c, args, pos)
 			}
 			v.trusted["<dynamic func value> "+c.Value.Name()+" in "+funcRef(s.frame.fn)] = true
+			// the address of a local variable handed to an unknown function (functional options: o(&opts)) is handed over
+			// to be written: the variable is unknown afterwards, whatever its type
+			for i, a := range c.Args {
+				if al, ok := a.(*ssa.Alloc); ok && al.Heap && i < len(args) && args[i] != nil && args[i].LV == nil && args[i].L[0] != nil {
+					if et := al.Type().(*types.Pointer).Elem(); isStruct(et) {
+						s.storeStruct(args[i].L[0], et, freshValue("ext!"+typeName(et), et))
+					}
+				}
+			}
 			v.havocPointeesPolicy(s, args, true)
 			return v.havocResult(s, resultType(c), "dyn")
 		}
@@ -420,6 +432,9 @@ func isModuleType(t types.Type) bool {
 func (v *Verifier) callInterface(s *State, c *ssa.CallCommon, recv *Value, args []*Value, pos token.Pos) *Value {
 	// contract declared on the interface method?
 	key := typeName(c.Value.Type()) + "." + c.Method.Name()
+	if os.Getenv("GOVC_DEBUG") == "iface" {
+		fmt.Fprintf(os.Stderr, "DEBUG iface call %s scope=%s found=%v\n", key, curScope, v.contracts.get(key) != nil)
+	}
 	if fc := v.contracts.get(key); fc != nil {
 		v.byContract[key] = true
 		sig := c.Method.Type().(*types.Signature)
@@ -443,6 +458,11 @@ func (v *Verifier) applyContract(s *State, fc *FuncContract, sig *types.Signatur
 func (v *Verifier) applyContractNamed(s *State, fc *FuncContract, sig *types.Signature, args []*Value, pos token.Pos, rt types.Type, name string, ifaceRecv bool) *Value {
 	calleeFn := v.curCallee
 	env := map[string]*Value{}
+	if v.curFnValue != nil {
+		// the function value being called (contracts of func-typed results and fields): `fnvalue`
+		env["fnvalue"] = v.curFnValue
+		v.curFnValue = nil
+	}
 	i := 0
 	if sig.Recv() != nil && !ifaceRecv {
 		if len(args) > 0 {
@@ -1453,7 +1473,8 @@ func (v *Verifier) collectMods(ins ssa.Instruction, cells map[*ssa.Alloc]bool, h
 			}
 			// pointer / slice args may be written (module structs assumed untouched by dynamic callees)
 			for _, a := range c.Args {
-				v.modArgPolicy(a.Type(), heap, true)
+				_, isLocal := a.(*ssa.Alloc)
+				v.modArgPolicy(a.Type(), heap, !(isLocal && !c.IsInvoke()))
 			}
 			return
 		}
